@@ -9,6 +9,7 @@ func init() {
 		Run: func(c *Ctx) {
 			serverUpgraderRules(c, "C09")
 			httpUpgraderRules(c, "C09")
+			httpGetHeaderRules(c, "C09")
 			asciiToIntRules(c, "C09")
 			acceptRules(c, "C09")
 			responseWriterRules(c, "C09")
